@@ -67,6 +67,11 @@ ASSUMPTIONS = [
 
 def mk_input(vecs, form):
     a = np.array(vecs, dtype=float)
+    if a.size and np.all(a == np.round(a)) and int(np.abs(a).sum()) % 2 == 0:
+        # integer-valued RDMs (counts, Hamming distances, categorical models) are commonly held
+        # in integer arrays: every other integral case is passed with an integer dtype
+        # (a deterministic function of the case; RDMs objects keep the dtype they are given)
+        a = a.astype(np.int64)
     if form == 'rdms':
         return RDMs(a.copy())
     if form == 'array1d' and a.shape[0] == 1:
